@@ -23,6 +23,29 @@ def _generate_model_cases(gen, tier):
             t = gen.with_leafless(t, 0.4)
         cfg = gen.cfg()
         cases.append(mk_case(cfg, t))
+    # all_leaves over sequences that mix, within one type, instances the predicate accepts and instances it does not
+    # (predicates 2 and 6 depend on the value: dicts with >= 2 items, empty lists), in every order
+    rng = gen.rng
+
+    def pool():
+        lf = lambda: gen.leaf(0)     # noqa: E731
+        return [lf(), A('N'), [A('T'), lf()], [A('l')], [A('l'), lf()],
+                [A('D'), [[A('s'), 'a'], lf()], [[A('s'), 'b'], lf()]], [A('D'), [[A('s'), 'a'], lf()]],
+                [A('O'), [[A('s'), 'a'], lf()], [[A('s'), 'b'], lf()]], [A('O'), [[A('s'), 'a'], lf()]], [A('D')]]
+    n_pool = len(pool())
+    for pred in (2, 6, 1, 3):
+        for i in range(n_pool):
+            for j in range(n_pool):
+                if tier == 'quick' and pred in (1, 3) and rng.random() < 0.7:
+                    continue
+                pl = pool()
+                elems = [pl[i], pool()[j]]
+                if rng.random() < 0.3:
+                    elems.insert(rng.randrange(3), pool()[rng.randrange(n_pool)])
+                cfg = gen.cfg(pred=pred, ns='', ordered=[])
+                lines = [op('all_leaves', cfg, elems), op('all_leaves', cfg, list(reversed(elems))),
+                         op('all_leaves', cfg, elems + elems)]
+                cases.append({'lines': lines, 'o': {'cfg': render(cfg), 'tree': render([A(rng.choice(['l', 'T'])), *elems])}})
     # dict / defaultdict nodes whose keys cannot be sorted at all (the traversals must agree on the fallback order too)
     for _ in range(40 if tier == 'quick' else 1500):
         t = gen.tree(depth=gen.rng.choice([1, 2, 3]), width=gen.rng.choice([2, 3, 4]), key_style='unsortable',
